@@ -181,6 +181,45 @@ pub fn gen_stream(rng: &mut Rng, p: &SProfile, limit: u32) -> Vec<SFrame> {
     out
 }
 
+/// short directed pipelines that random generation rarely produces: a quiet command that HAS something to say (a hit, an
+/// error) directly followed by the end of the connection (quit, quitq, invalid header, nothing) or by another quiet one
+pub fn directed_streams() -> Vec<Vec<SFrame>> {
+    let std = |f: Frame| SFrame { kind: Kind::Std, opcode: f.opcode, opaque: f.opaque, bytes: f.bytes() };
+    let set = |k: &[u8], opq: u32| std(wire::set_like(op::SET, k, b"val", 5, 0, 0, opq));
+    let quit = |q: bool, opq: u32| {
+        let f = wire::bare(if q { op::QUITQ } else { op::QUIT }, opq);
+        SFrame { kind: if q { Kind::QuitQ } else { Kind::Quit }, opcode: f.opcode, opaque: opq, bytes: f.bytes() }
+    };
+    let bad = |opq: u32| {
+        let mut f = wire::bare(op::NOOP, opq).bytes();
+        f[0] = 0x13;
+        SFrame { kind: Kind::BadHeader, opcode: op::NOOP, opaque: opq, bytes: f }
+    };
+    let mut out = vec![];
+    for (gi, getop) in [op::GETQ, op::GETKQ].iter().enumerate() {
+        let b = 0x100 * (gi as u32 + 1);
+        out.push(vec![set(b"dk", b + 1), std(wire::key_only(*getop, b"dk", 0, b + 2)), quit(true, b + 3)]);
+        out.push(vec![set(b"dk", b + 1), std(wire::key_only(*getop, b"dk", 0, b + 2)), quit(false, b + 3)]);
+        out.push(vec![set(b"dk", b + 1), std(wire::key_only(*getop, b"dk", 0, b + 2)), bad(b + 3)]);
+        out.push(vec![set(b"dk", b + 1), std(wire::key_only(*getop, b"dk", 0, b + 2))]);
+        out.push(vec![set(b"dk", b + 1), std(wire::key_only(*getop, b"dk", 0, b + 2)), std(wire::key_only(*getop, b"dk", 0, b + 3)), std(wire::bare(op::NOOP, b + 4))]);
+    }
+    // `stat <group>`: the one header-only command that legitimately carries a key
+    for (i, g) in [&b"items"[..], &b"settings"[..]].iter().enumerate() {
+        let mut st = wire::bare(op::STAT, 0x402 + 0x10 * i as u32);
+        st.key = g.to_vec();
+        out.push(vec![set(b"dk", 0x401 + 0x10 * i as u32), std(st), std(wire::key_only(op::GET, b"dk", 0, 0x403 + 0x10 * i as u32)), std(wire::bare(op::NOOP, 0x404 + 0x10 * i as u32))]);
+    }
+    // quiet mutations that fail: the error must reach the client whatever follows
+    out.push(vec![set(b"dk", 0x301), std(wire::set_like(op::ADDQ, b"dk", b"x", 0, 0, 0, 0x302)), quit(true, 0x303)]);
+    out.push(vec![std(wire::set_like(op::REPLACEQ, b"absent", b"x", 0, 0, 0, 0x311)), quit(true, 0x312)]);
+    out.push(vec![std(wire::key_only(op::DELETEQ, b"absent", 0, 0x321)), quit(true, 0x322)]);
+    out.push(vec![set(b"dk", 0x331), std(wire::set_like(op::SETQ, b"dk", b"x", 0, 0, 77, 0x332)), bad(0x333)]);
+    out.push(vec![std(wire::delta(op::INCRQ, b"absent", 1, 1, 0xffff_ffff, 0, 0x341)), quit(true, 0x342)]);
+    out.push(vec![std(wire::delta(op::DECRQ, b"absent", 1, 1, 0xffff_ffff, 0, 0x351)), std(wire::bare(op::NOOP, 0x352))]);
+    out
+}
+
 /// cut positions (sorted, within 1..len-1) for one segmentation
 pub fn segmentations(rng: &mut Rng, frames: &[SFrame], singles: usize, pairs: usize, randoms: usize, bytewise_max: usize) -> Vec<Vec<usize>> {
     let len: usize = frames.iter().map(|f| f.bytes.len()).sum();
@@ -281,6 +320,14 @@ pub fn judge_responses(frames: &[SFrame], limit: u32, out: &[u8], closed: bool, 
     };
     let mut ri = 0usize;
     let mut dead = false;
+    // keys this connection knows to be present: stored by an acknowledged loud set/add/replace and not touched since
+    // by anything that could remove them (conservative: any other mutation of the key, any flush, forgets it)
+    let mut present: std::collections::HashSet<Vec<u8>> = Default::default();
+    let key_of = |b: &[u8]| -> Vec<u8> {
+        let el = b[4] as usize;
+        let kl = u16::from_be_bytes([b[2], b[3]]) as usize;
+        if b.len() >= 24 + el + kl { b[24 + el..24 + el + kl].to_vec() } else { vec![] }
+    };
     for (fi, f) in frames.iter().enumerate() {
         if dead {
             break;
@@ -290,6 +337,21 @@ pub fn judge_responses(frames: &[SFrame], limit: u32, out: &[u8], closed: bool, 
         let quiet = wire::is_quiet_opcode(f.opcode);
         match f.kind {
             Kind::Std => {
+                let k = key_of(&f.bytes);
+                let is_get_op = matches!(f.opcode, 0x00 | 0x09 | 0x0c | 0x0d);
+                if matches!(f.opcode, 0x09 | 0x0d) && present.contains(&k) && !matches {
+                    v.push((vec!["C12", "C19"], format!("frame {}: quiet get opcode {:#x} opaque {:#x} of a key this connection has just stored was not answered (next response: {:?})", fi, f.opcode, f.opaque, next.as_ref().map(|r| (r.opcode, r.opaque)))));
+                    return v;
+                }
+                if matches!(f.opcode, 0x01 | 0x02 | 0x03) && matches && next.as_ref().map_or(false, |r| r.status == 0) && limit >= 24 {
+                    // only items without a TTL stay known (the conn suites do not move the clock, but a TTL may be 1 s)
+                    let ttl = if f.bytes.len() >= 32 { u32::from_be_bytes(f.bytes[28..32].try_into().unwrap()) } else { 1 };
+                    if ttl == 0 { present.insert(k.clone()); } else { present.remove(&k); }
+                } else if f.opcode == 0x08 || f.opcode == 0x18 {
+                    present.clear();
+                } else if !is_get_op && !matches!(f.opcode, 0x0a | 0x0b | 0x10) {
+                    present.remove(&k);
+                }
                 if matches {
                     let r = next.unwrap();
                     if quiet {
@@ -323,7 +385,11 @@ pub fn judge_responses(frames: &[SFrame], limit: u32, out: &[u8], closed: bool, 
                     }
                     ri += 1;
                 } else {
-                    v.push((vec!["C13", "C12", "C18"], format!("frame {}: request with a body above the item limit {} was not answered with 'too large' at its place (next response: {:?})", fi, limit, next.map(|r| (r.opcode, r.opaque, r.status)))));
+                    let mut props = vec!["C13", "C12", "C18"];
+                    if quiet {
+                        props.push("C19"); // the loud twin is answered 'too large' and skipped: the quiet one must be too
+                    }
+                    v.push((props, format!("frame {}: request with a body above the item limit {} was not answered with 'too large' at its place (next response: {:?})", fi, limit, next.map(|r| (r.opcode, r.opaque, r.status)))));
                     return v;
                 }
             }
@@ -376,10 +442,11 @@ pub fn run(r: &mut Runner, level: &str, profile: &str, seed: u64, count: u64, ti
     let p = sprofile(profile);
     let mut master = Rng::new(seed ^ 0x5eed);
     let mut st = StreamStats { streams: 0, cases: 0, kinds: BTreeMap::new(), distinct: Default::default(), samples: vec![] };
-    for _ in 0..count {
+    let directed = directed_streams();
+    for it in 0..count {
         let mut rng = master.fork();
         let limit: u32 = *rng.pick(&[1024u32, 1024, 2048, 4096]);
-        let frames = gen_stream(&mut rng, &p, limit);
+        let frames = if (it as usize) < directed.len() && count as usize >= directed.len() + 8 { directed[it as usize].clone() } else { gen_stream(&mut rng, &p, limit) };
         let stream: Vec<u8> = frames.iter().flat_map(|f| f.bytes.clone()).collect();
         for f in &frames {
             *st.kinds.entry(format!("{:?}", f.kind)).or_insert(0) += 1;
@@ -498,6 +565,9 @@ pub fn run(r: &mut Runner, level: &str, profile: &str, seed: u64, count: u64, ti
     }
     if level == "conn" && profile == "C11" {
         big_response(r);
+    }
+    if level == "conn" && profile == "C18" {
+        unread_close(r);
     }
     r.finish();
     st
@@ -646,6 +716,54 @@ pub fn big_response(r: &mut Runner) {
     }
 }
 
+/// C18 "the server keeps serving": clients that ask for data, half-close and never read it (their receive window is
+/// full when the server closes their connections) must not delay anybody else. More such clients than the server has
+/// worker threads, then a fresh connection whose noop must be answered promptly.
+pub fn unread_close(r: &mut Runner) {
+    use std::io::{Read, Write};
+    let clock = std::sync::Arc::new(crate::sut::Clock(std::sync::atomic::AtomicU64::new(0)));
+    let store: std::sync::Arc<dyn memcrs::cache::cache::Cache + Send + Sync> = std::sync::Arc::new(memcrs::memory_store::store::MemoryStore::new(clock));
+    let srv = crate::net::start_server(store, 128 << 10, 64, 30);
+    r.exec("note unread-close: 8 clients store 48 KiB, get it twice, half-close and never read (1 KiB receive buffer); then a fresh connection sends a noop");
+    let start = r.ops.len() - 1;
+    let value = vec![b'u'; 48 << 10];
+    let mut held = vec![];
+    for i in 0..8u32 {
+        let sock = socket2::Socket::new(socket2::Domain::IPV4, socket2::Type::STREAM, None).unwrap();
+        let _ = sock.set_recv_buffer_size(1024);
+        let addr: std::net::SocketAddr = ([127, 0, 0, 1], srv.port).into();
+        if sock.connect(&addr.into()).is_err() {
+            continue;
+        }
+        let mut c: std::net::TcpStream = sock.into();
+        let key = format!("u{}", i).into_bytes();
+        let mut b = wire::set_like(op::SET, &key, &value, 0, 0, 0, 1).bytes();
+        b.extend(wire::key_only(op::GET, &key, 0, 2).bytes());
+        b.extend(wire::key_only(op::GET, &key, 0, 3).bytes());
+        let _ = c.write_all(&b);
+        let _ = c.shutdown(std::net::Shutdown::Write);
+        held.push(c);
+    }
+    std::thread::sleep(std::time::Duration::from_millis(400));
+    let t0 = std::time::Instant::now();
+    let mut answered = false;
+    if let Ok(mut b) = std::net::TcpStream::connect(("127.0.0.1", srv.port)) {
+        b.set_nodelay(true).ok();
+        b.set_read_timeout(Some(std::time::Duration::from_millis(2000))).ok();
+        let _ = b.write_all(&wire::bare(op::NOOP, 0xbeef).bytes());
+        let mut buf = [0u8; 64];
+        if let Ok(n) = b.read(&mut buf) {
+            answered = n >= 24;
+        }
+    }
+    let waited = t0.elapsed();
+    drop(held);
+    if !answered {
+        let prog = r.prog_start.len().saturating_sub(1);
+        r.violations.push((prog, vec!["C18"], start, format!("while connections whose clients had half-closed without reading their answers were being closed, a fresh connection's noop got no answer within {} ms: a fault on one connection delays the others", waited.as_millis())));
+    }
+}
+
 fn trunc(s: &str) -> String {
     if s.len() > 160 {
         format!("{}…({} chars)", &s[..160], s.len())
@@ -662,7 +780,43 @@ pub fn run_grid(r: &mut Runner, seed: u64, count: u64) -> StreamStats {
     let opcodes: Vec<u8> = (0u8..=0x26).chain([0x40u8, 0x7f, 0x80, 0xff]).collect();
     let keylens: [u16; 6] = [0, 1, 5, 250, 251, 65535];
     let extras: [u8; 7] = [0, 4, 8, 12, 20, 21, 255];
-    for _ in 0..count {
+    for case_no in 0..count {
+        if case_no % 8 == 7 {
+            // memory clause under pipelining: several large requests (some of which the store will refuse, so that their
+            // payload is dropped at once) on one connection, limits above the initial buffer size; the capacity of the
+            // connection buffer must stay within the item limit plus a small constant whatever the allocator's growth policy
+            let limit: u32 = *rng.pick(&[5000u32, 8192, 8192, 12000, 20000]);
+            r.exec(&format!("new {}", limit));
+            r.exec("codec");
+            let n = rng.range(2, 5);
+            let mut stream: Vec<u8> = vec![];
+            let mut frac = rng.range(35, 70);
+            for i in 0..n {
+                let total = ((limit as u64) * frac / 100).min(limit as u64) as usize;
+                frac = (frac + rng.range(10, 40)).min(100);
+                let vlen = total.saturating_sub(8 + 3).max(1);
+                let opc = *rng.pick(&[op::SET, op::ADD, op::ADD, op::REPLACE, op::SETQ]);
+                stream.extend_from_slice(&wire::set_like(opc, b"big", &vec![b'a' + i as u8; vlen], 0, 0, 0, i as u32).bytes());
+                if rng.chance(1, 3) {
+                    stream.extend_from_slice(&wire::key_only(op::GET, b"big", 0, 100 + i as u32).bytes());
+                }
+            }
+            *st.kinds.entry("big-pipeline".to_string()).or_insert(0) += 1;
+            st.cases += 1;
+            st.streams += 1;
+            st.distinct.insert(0xb16 ^ ((limit as u64) << 20) ^ stream.len() as u64);
+            let mut off = 0usize;
+            while off < stream.len() {
+                let nn = (stream.len() - off).min(*rng.pick(&[4096usize, 4096, 1500, 9000]));
+                let o = r.exec(&format!("dec {}", hex(&stream[off..off + nn])));
+                off += nn;
+                if o.ends_with(" E") || o.contains(" P:") {
+                    break;
+                }
+            }
+            r.exec("dump");
+            continue;
+        }
         let limit: u32 = *rng.pick(&[1024u32, 2048, 4096, 65536]);
         let opc = *rng.pick(&opcodes);
         let kl = *rng.pick(&keylens);
